@@ -127,6 +127,7 @@ type TLCResult struct {
 	NoError     bool
 	Violated    []string // names of violated invariants / properties
 	Lines       []string // payload of lines printed as "@ST ..."
+	Tables      []string // payload of lines printed as "@SC ..."
 	WallSeconds float64
 	TimedOut    bool
 }
@@ -179,6 +180,11 @@ func (e *Env) runTLCIn(work, name, module, cfg string, workers int, timeout time
 		if strings.HasPrefix(line, `"@ST `) {
 			if s, uerr := strconv.Unquote(strings.TrimSpace(line)); uerr == nil {
 				res.Lines = append(res.Lines, strings.TrimPrefix(s, "@ST "))
+			}
+		}
+		if strings.HasPrefix(line, `"@SC `) {
+			if s, uerr := strconv.Unquote(strings.TrimSpace(line)); uerr == nil {
+				res.Tables = append(res.Tables, strings.TrimPrefix(s, "@SC "))
 			}
 		}
 	}
